@@ -1197,7 +1197,7 @@ def script_clone(g, n, prop, out):
     spec = ircases.large_cases_for(n)[1]
     steps = 0
     for pre in ("cold", "warm"):
-        for how in ("deepcopy", "pickle"):
+        for how in ("deepcopy", "pickle", "save-load"):
             where = "clone n=%d %s %s" % (n, pre, how)
             try:
                 x, _ = irgen.build_ir(spec, "topdown")
@@ -1207,9 +1207,17 @@ def script_clone(g, n, prop, out):
                                     "%s: %s" % (where, d)))
                 before = irgen.snapshot(x)
                 try:
-                    y = (copy.deepcopy(x) if how == "deepcopy"
-                         else pickle.loads(pickle.dumps(x)))
+                    if how == "save-load":
+                        buf = io.BytesIO()
+                        x.save_protobuf_file(buf)
+                        y = g.IR.load_protobuf_file(
+                            io.BytesIO(buf.getvalue()))
+                    else:
+                        y = (copy.deepcopy(x) if how == "deepcopy"
+                             else pickle.loads(pickle.dumps(x)))
                 except Exception:  # noqa  (cloning not supported: no claim)
+                    if how == "save-load":
+                        raise
                     continue
                 steps += 1
                 for sig, d in oracle.check_ir(g, y, others=[x]):
